@@ -82,6 +82,18 @@ def main(c):
     for _ in range(c.pick(6, 60)):
         x, y = rnd.getrandbits(256), rnd.getrandbits(2048) % p
         lines += ["osslerr", "dhpub %s %s" % (h(x, 64), h(rnd.getrandbits(256), 64)), "osslerr", "osslerr", "dhkey %s %s %s" % (h(y, 512), h(x, 64), h(rnd.getrandbits(256), 64))]
+    # crypto_verify_bytes (what a caller compares shared keys and MACs with): equal buffers, a difference in the first / last / a middle
+    # byte, in one bit, in every byte; lengths 0, 1, 31, 32, 33, 256, 1000
+    for n in (0, 1, 2, 31, 32, 33, 256, 1000):
+        a = bytes(rnd.getrandbits(8) for _ in range(n))
+        vs = [a]
+        for pos in sorted(set([0, n - 1, n // 2]) if n else []):
+            for flip in (1, 0x80, 0xff):
+                b = bytearray(a); b[pos] ^= flip; vs.append(bytes(b))
+        if n:
+            vs.append(bytes(x ^ 0xff for x in a)); vs.append(bytes(n)); vs.append(b"\xff" * n)
+        for b in vs:
+            lines.append("verify %s %s" % (a.hex() or "-", bytes(b).hex() or "-"))
     c.cov["calls"] = len(lines)
     g.run(c, exe, lines, "dh", per=40, shuffle=False)
     c.cov["rule"] = ("private values 0, 1, 2, 2^256-1, values with leading zero bytes and random; peer values 0, 1, 2, p-1, p, p+1, 2^2048-1, short, random, and values whose "
